@@ -1604,6 +1604,23 @@ func init() {
 					}
 				}
 			}
+			// serialisation of column-major tensors (the formats that carry the data order)
+			for _, format := range []string{"gob", "pb", "fb", "npy", "csv"} {
+				for _, sh := range [][]int{{2, 3}, {2, 1, 2}} {
+					if format == "csv" && len(sh) != 2 {
+						continue
+					}
+					for _, masked := range []int{0, 1} {
+						cfg := map[string]interface{}{"dtype": []string{"float64", "int16"}[masked], "format": format, "shape": sh, "layout": "F"}
+						keys := []string{"format", "dtype", "shape", "layout"}
+						if masked == 1 {
+							cfg["masked"] = 1
+							keys = append(keys, "masked")
+						}
+						out = append(out, mkInst("vhC14", cfg, keys...))
+					}
+				}
+			}
 			// reductions
 			for _, sh := range [][]int{{3}, {2, 3}, {2, 3, 2}} {
 				r := len(sh)
